@@ -46,6 +46,9 @@ CLAIMED = {
  'C16': ('other', 'ocp.der(e) lowered to SX and proven equal by z3 to an independent AST total derivative, right-hand sides uninterpreted',
          'Bounded symbolic checking. For every enumerated/generated ODE (uninterpreted markers in f) and polynomial expression e of states, time, parameters and global variables (scalar and vector valued): der(e) == d_t e + grad_x e . f for all values of (x,u,p,v,t) and all right-hand sides of the shape; order-k controls: der^j(u) is chain member j, der^(k+1)(u) raises; der of a control-dependent expression raises.',
          'Reference differentiates the AST of e (so e is polynomial/rational); markers stand for f only.', '3/C16'),
+ 'C10': ('other', 'ground read-back of the starting vector through the named quantities + z3 identity of the evaluated time-expression guesses for all guessed t0/T + relational NLP invariance',
+         'For every enumerated guess set (scalar, n x N, n x (N+1), expression of time; states, controls, variables of every kind, algebraics, free T/t0), method, grid and call order: (a) the starting point read back in physical units equals the guess at every node / interval / collocation point, zero elsewhere, last call wins (ground, distinct values); (b) each expression rockit evaluates at the initial point (logged through a shim on OptiAdvanced.value) is proven by z3 equal to the guess expression at the named node / interval-start / collocation times for ALL guessed t0, T; (c) two real transcriptions with and without guesses have identical rows/objective for all x; (d) guesses given after the first transcription produce the same starting point as before it.',
+         'Guess values live in CasADi\'s numeric store: routing is ground. OptiAdvanced.value wrapped by a logging shim.', '3/C10'),
 }
 NA = {p: 'check not built yet in this round (see DESIGN.md section 3 for the plan)' for p in
       ['C02','C03','C04','C05','C06','C07','C08','C09','C10','C11','C12','C13','C14','C15','C16','C17','C18','C19']}
